@@ -259,7 +259,8 @@ impl Prop for C19 {
                 mapping.insert("id".to_string(), CsvMapping::Optional { optional: Box::new(CsvMapping::Path("request.qid".into())) });
                 for (i, col) in columns.iter().enumerate() {
                     // names chosen so that sorted order differs from insertion order
-                    let name = format!("{}col{}", ["m", "z", "a", "k", "b"][i % 5], i);
+                    // (mixed case: byte order and case-insensitive order differ)
+                    let name = format!("{}col{}", ["m", "Z", "a", "K", "b"][i % 5], i);
                     mapping.insert(name.clone(), col_mapping(col));
                     cols.push((name, col.clone()));
                 }
